@@ -8,7 +8,7 @@
 (* in order when nothing filters them (no math removal, no discards).              *)
 EXTENDS DocWriter, Json
 
-CONSTANTS MacroSig, EnvSig, SpecSig, HasUnknownMacro, HasUnknownEnv, St0,
+CONSTANTS MacroSig, EnvSig, SpecSig, HasUnknownMacro, HasUnknownEnv, Sticky, St0,
           MacroText, EnvText, SpecialsText, NfcTab, Pols, OptSets
 
 L == INSTANCE L2T WITH VTok <- "intended", VMarker <- "intended", VVerb <- "intended", VPosNone <- "intended"
